@@ -71,9 +71,76 @@ theorem searchFrom_sound (s : SizeSite) (cands : List Int) :
 /-- **counterexample_sound.**  Whatever the search of the driver returns violates the obligation. -/
 theorem SizeSite.counterexample_sound (s : SizeSite) (l : List Int) (h : s.counterexample = some l) : ¬ s.safe := by
   simp only [SizeSite.counterexample] at h
-  obtain ⟨b, _, hb⟩ := firstM_some _ _ _ h
-  split at hb
-  · exact s.violatedBy_sound l (searchFrom_sound s b _ _ _ hb)
-  · cases hb
+  split at h
+  · rename_i l' hbox
+    cases h
+    simp only [SizeSite.boxCounterexample] at hbox
+    obtain ⟨b, _, hb⟩ := firstM_some _ _ _ hbox
+    split at hb
+    · exact s.violatedBy_sound l (searchFrom_sound s b _ _ _ hb)
+    · cases hb
+  · simp only [SizeSite.prunedCounterexample] at h
+    obtain ⟨b, _, hb⟩ := firstM_some _ _ _ h
+    split at hb
+    · split at hb
+      · rename_i hv
+        cases hb
+        exact s.violatedBy_sound _ hv
+      · cases hb
+    · cases hb
 
 end Csvq.SizeFacts
+
+/-! ## names of reviewed obligations (shared by Csvq/Props/C19Sizes.lean, C19Loops.lean, C19Lib.lean) -/
+namespace Csvq.C19
+open Csvq.SizeFacts
+
+/-- an obligation named without its line: file, function (`/func` = inside a function literal), site text, which bound, number
+    of occurrences, and the reason it is not proved here.  Reason classes:
+    N non-linear / floating-point arithmetic;  P a parameter, a field of another object or a result whose range is a contract
+    of the callee;  I an invariant between data structures kept by other functions;  S a result of a string search / conversion;
+    C a correlation the join of branches does not keep. -/
+structure SizeRef where
+  file : String
+  fn : String
+  expr : String
+  what : String
+  count : Nat
+  reason : String
+deriving Repr
+
+def SizeRef.is (r : SizeRef) (s : SizeSite) : Bool :=
+  r.expr == s.expr && r.what == s.what && r.fn == s.fn && r.file == s.file
+
+/-- a loop named without its line: file, function, header, number of occurrences, reason.  Reason classes:
+    I an iterator / scanner / reader whose progress is made by a callee (no integer measure in this function);
+    U the user's own loop;  R termination with probability 1;  D a measure that depends on a direction chosen before the loop;
+    C / E a fact the walk does not keep (an assignment inside a switch with fallthrough; an element read twice). -/
+structure LoopRef where
+  file : String
+  fn : String
+  header : String
+  count : Nat
+  reason : String
+deriving Repr
+
+def LoopRef.is (r : LoopRef) (l : LoopSite) : Bool := r.header == l.header && r.fn == l.fn && r.file == l.file
+
+/-- what the recorded proofs give: `proved` is `terminates` -/
+theorem LoopSite.proved_sound (entries : List SizeEntry) (l : LoopSite) (h : l.proved entries = true) :
+    l.terminates entries := by
+  simp only [LoopSite.proved, Bool.or_eq_true, beq_iff_eq, List.any_eq_true, List.all_eq_true] at h
+  cases h with
+  | inl h0 => exact Or.inl h0
+  | inr hc =>
+    obtain ⟨c, hc, hall⟩ := hc
+    refine Or.inr ⟨c, hc, ?_⟩
+    intro i hi
+    have := hall i hi
+    split at this
+    · rename_i e he
+      match e, this with
+      | ⟨s, .yes hp⟩, _ => exact ⟨⟨s, .yes hp⟩, he, hp⟩
+    · cases this
+
+end Csvq.C19
